@@ -451,6 +451,16 @@ func (s *sim) step(st Step) error {
 		} else {
 			s.skip(st.A, "no-claim")
 		}
+	case "Annotate": // someone else stamps the termination-timestamp annotation (st.To seconds from now; 0 = now)
+		nc := &v1.NodeClaim{ObjectMeta: metav1.ObjectMeta{Name: st.Name}}
+		if !w.EnvMutate(nc, "Annotate", func() {
+			if nc.Annotations == nil {
+				nc.Annotations = map[string]string{}
+			}
+			nc.Annotations[v1.NodeClaimTerminationTimestampAnnotationKey] = now.Add(time.Duration(st.To) * time.Second).Format(time.RFC3339)
+		}) {
+			s.skip(st.A, "no-claim")
+		}
 	case "SetClaim": // launch / registration progress made by the lifecycle controller + kubelet, abstracted
 		nc := &v1.NodeClaim{ObjectMeta: metav1.ObjectMeta{Name: st.Name}}
 		if !w.EnvMutate(nc, "SetClaim", func() {
